@@ -34,7 +34,7 @@ Definition fam (f : fdesc) (b : cbody) : verdict :=
              ++ (if f_kg f then [(PU 0, chK)] else []))
           (fam_roles f b).
 
-Definition switches_now : switches := mkSw code_fixed reject_roles_fixed.
+Definition switches_now : switches := mkSw code_fixed reject_roles_fixed always_inval_fixed.
 
 (* ---------------------------------------------------------------- observations *)
 Record obs_doc := mkOD {
